@@ -141,6 +141,13 @@ pub fn gen_sess_run(check: &str, seed: u64, tier: Tier, with_probes: bool) -> Ru
     if tier == Tier::Thorough && f.chance(1, 2) {
         run.set("checkpoint_every_union", 1);
     }
+    {
+        // (own stream) one run in seven has a companion e-graph in the same thread (sess.rs)
+        let mut cr = Rng::stream(seed, "companion");
+        if cr.chance(1, 7) {
+            run.set("companion", 1);
+        }
+    }
     run
 }
 
@@ -719,13 +726,16 @@ impl Check for SessCc {
 }
 
 impl SessCc {
-    fn exec_with<N: Analysis<LS>>(&self, run: &Run, eg: EGraph<LS, N>) -> Outcome {
+    fn exec_with<N: Analysis<LS> + Clone>(&self, run: &Run, eg: EGraph<LS, N>) -> Outcome {
         let mut out = Outcome::default();
         let c01 = self.id == "C01";
         let c02 = self.id == "C02";
         let c08 = self.id == "C08";
         seam::apply(&run.knobs());
         let mut s: Sess<LS, N> = Sess::new(eg, run.get("naming") as u32);
+        if run.get("companion") != 0 {
+            s.enable_companion();
+        }
         let n = pool_size(&run.ops);
         let mut ctx = CcCtx::new(n);
         ctx.unit_schema = run.get("analysis") == 2;
